@@ -5,6 +5,18 @@ import json, subprocess
 BASELINE = "cd /repo && cargo nextest run --workspace --no-fail-fast --tool-config-file pb:/w/lib/nextest.toml --profile pb --test-threads 8 --offline || (cd /repo && cargo test --workspace --no-fail-fast --offline)"
 
 CLAIMED = {
+ "C01": ("exploration", "solver-sim", "deterministic simulation: reference-model conformance of every response in perturbed histories (warm state, interruptions, recovered panics, permuted/superset database answers)",
+         "Every answer of seeded simulated histories on fragment worlds is judged against Ref, an independent three-valued model of the program's logical meaning. The simulator contributes the contexts (warm, interrupted, after a recovered panic, permuted DB); the input quantifier is sampled by W-gen. Sampling, not proof.",
+         "Trusts Ref (sim/src/reference.rs) and the bounded universe (depth 2) for goals with unknowns; known findings F8/F10 (SLG coinduction) matched by signature.", "§6 C01"),
+ "C02": ("exploration", "solver-sim", "deterministic simulation: per-run randomised solver limits (swarm knobs) + reference-model conformance on closed goals",
+         "Closed goals of size-decreasing fragment worlds under limits drawn between the bound Ref measured and the defaults; answers must be definite and equal Ref; limit-reached runs excluded.",
+         "Trusts Ref; limit-reached detection is by comparison with the default-limit answer and the documented overflow panic; known finding F9 matched by signature.", "§6 C02"),
+ "C05": ("exploration", "solver-sim", "deterministic simulation: histories over all members of coinductive cycles on warm solvers vs greatest-fixed-point reference model and fresh solver",
+         "Worlds with auto/#[coinductive] traits and recursive structs; every cycle member posed in PRNG order on warm solvers; answers must equal Ref (gfp) and a fresh solver.",
+         "Trusts Ref; SLG incompleteness on multi-member cycles (F8) matched by signature, its coverage loss is reported in the evidence.", "§6 C05"),
+ "C06": ("exploration", "solver-sim", "deterministic simulation: interleaved scoped/unscoped goals on one solver (+ permuted environment clauses) vs reference closure and fresh solver",
+         "Goals under hypotheses interleaved on one solver with the same goals without / with weaker / with differently-scoped hypotheses; answers must equal Ref (closure computed independently) and a fresh solver.",
+         "Trusts Ref; known findings F8, F9 matched by signature.", "§6 C06"),
  # id: (level, engine, technique, level text, level note, design ref)
  "C10": ("exploration", "solver-sim", "deterministic simulation: seeded operation histories on warm/shared solver state vs fresh-solver reference",
          "Seeded search over operation histories on five solver slots (SLG, recursive cache on/off, two recursive solvers sharing a cache); every answer is compared with a fresh solver. Sampling, not proof; right level because the property quantifies over unbounded histories.",
